@@ -775,6 +775,13 @@ class S3StorageBackend(StorageBackend):
         from .s3_consistency import with_s3_retry
 
         s3_prefix = self._get_s3_key(prefix)
+        # `prefix` names a DIRECTORY of the table, as on the local backend. A bare
+        # key-prefix match would also return siblings that merely start with the
+        # same characters ('data' -> 'data2/...', 'database'; 'metadata' -> the
+        # 'metadata.version-hint.text' pointer), and garbage collection deletes
+        # from this listing.
+        if s3_prefix and not s3_prefix.endswith("/"):
+            s3_prefix += "/"
 
         def list_op() -> List[str]:
             result = []
